@@ -275,11 +275,15 @@ def native_replay(pkg, items, scratch, attempts=1, timeout=600, gomaxprocs1=Fals
     # real code must not hide the other replays
     for e, path in items:
         renv = dict(env, VERIF_REPLAYS="%s=%s" % (e, path))
+        tmo = timeout
         try:
             with open(path) as fh:
                 meta = json.load(fh)
             if meta.get("kind") == "cover":
                 renv["VERIF_COVER_LABEL"] = meta["label"].split(":", 1)[1]
+            if meta.get("kind") == "deadlock":
+                # a wedge shows natively as a run that never ends: do not wait the full replay timeout for each
+                tmo = min(timeout, 120)
         except (OSError, ValueError, IndexError):
             pass
         # schedule-dependent counterexamples are retried under several degrees of
@@ -292,8 +296,8 @@ def native_replay(pkg, items, scratch, attempts=1, timeout=600, gomaxprocs1=Fals
             if procs:
                 renv["GOMAXPROCS"] = procs
             try:
-                q = subprocess.run(["sh", "-c", "ulimit -v 12000000; exec \"$0\" -test.run '^TestVerifReplay$' -test.v -test.timeout %ds" % timeout, binpath],
-                                   cwd=os.path.join(REPO, pkg), env=renv, stdout=subprocess.PIPE, stderr=subprocess.STDOUT, text=True, timeout=timeout + 30)
+                q = subprocess.run(["sh", "-c", "ulimit -v 12000000; exec \"$0\" -test.run '^TestVerifReplay$' -test.v -test.timeout %ds" % tmo, binpath],
+                                   cwd=os.path.join(REPO, pkg), env=renv, stdout=subprocess.PIPE, stderr=subprocess.STDOUT, text=True, timeout=tmo + 30)
                 out = q.stdout
             except subprocess.TimeoutExpired as ex:
                 out = (ex.stdout or b"").decode("utf-8", "replace") if isinstance(ex.stdout, bytes) else (ex.stdout or "")
